@@ -48,7 +48,7 @@ class _PauseOnWaiting(plumpy.ProcessListener):
 
 
 def run_with_crashes(make_proc, crash_points, resume_for_wait, transport=None, budget=4000, max_restores=64, persister=None, lag=0, resume_mode='plain',
-                     exit_crashes=(), other_loop_current=False, paused_crashes=(), save_every=False):
+                     exit_crashes=(), other_loop_current=False, paused_crashes=(), save_every=False, load_twice=False):
     """make_proc(loop) -> process.  resume_for_wait(j) -> list of resume args for the j-th wait (0-based).
 
     transport(bundle) -> bundle: how the snapshot travels (default: pickle round trip).
@@ -94,6 +94,10 @@ def run_with_crashes(make_proc, crash_points, resume_for_wait, transport=None, b
                             if other is not None:
                                 other.close()
                     else:
+                        if load_twice:
+                            # somebody looked at the checkpoint before (loaded it and dropped the instance without running it):
+                            # loading is reading, the bundle is what it was
+                            bundle.unbundle(plumpy.LoadSaveContext(loop=drv.loop))
                         proc = bundle.unbundle(plumpy.LoadSaveContext(loop=drv.loop))
                     restores += 1
                     now = _snapshot_views(proc)
